@@ -425,6 +425,7 @@ func (r *HarnessResult) merge(p *HarnessResult) {
 		t.Discharged += o.Discharged
 		t.Trivial += o.Trivial
 		t.Nontrivial += o.Nontrivial
+		t.PathDependent += o.PathDependent
 		t.Reached += o.Reached
 		t.SolverMs += o.SolverMs
 		for k := range o.Pos {
